@@ -6,7 +6,9 @@ import (
 	clientCmd "github.com/bokysan/socketace/v2/internal/commands/client"
 	"io"
 	"net"
+	"os"
 	"strings"
+	"syscall"
 	"time"
 
 	"github.com/bokysan/socketace/v2/internal/client/upstream"
@@ -169,6 +171,25 @@ func c04matrix(r *Run, cell c04cell) {
 		// in half of these runs the server reads certificate and key from files whenever it needs them
 		// (a read takes simulated time, during which other connections are served)
 		cfg.ServerCertFiles = c.Chance(1, 2, "cert-files")
+	}
+	// A disk fault on the client (one run in five): the file with its CA certificates cannot be read - for good,
+	// or for the first 1-3 reads. A client that cannot build its TLS configuration cannot ask for StartTLS; what
+	// it must not do is settle for a plaintext session where protection is required or was on offer.
+	if c.Chance(1, 5, "client-ca-file-unreadable") {
+		cfg.ClientCAFile = true
+		failing := 1 + c.Pick(4, "ca-read-failures")
+		if failing == 4 {
+			failing = 1 << 30
+		}
+		simrt.ReadFault = func(name string) error {
+			if strings.Contains(name, "client-ca-") && failing > 0 {
+				failing--
+				r.Count("fault_file_read_error")
+				return &os.PathError{Op: "open", Path: name, Err: syscall.EIO}
+			}
+			return nil
+		}
+		r.Info["client_ca_file_unreadable"] = true
 	}
 	cfg.Channels = []ChanCfg{{Name: "alpha", Target: "tcp://" + TargetIP + ":7001"}}
 	lsn := LsnCfg{Channel: "alpha", Kind: "tcp", Addr: "127.0.0.1:6001"}
